@@ -6,6 +6,7 @@
 // deliver pieces of at most that size; the reference is the same bytes parsed from memory in one piece.
 // Route C (-DC06_PIPE): the bytes arrive on stdin through a pipe whose writer hands over exactly the planned pieces (short reads, as with
 // pipes, FIFOs and sockets); plain, gzip and bzip2 decompressors and the PBF parser's own reads from the descriptor.
+#include "tmpdir.hpp"
 #include "enc.hpp"
 
 #if defined(C06_REAL) || defined(C06_PIPE)
@@ -487,7 +488,7 @@ static void prop(Src& s) {
     const std::string bytes = make_file(s, fmt, what);
     if (vp::want_desc()) vp::describe(what);
     const Result ref = read_all(osmium::io::File{bytes.data(), bytes.size(), FMT[fmt]});
-    static const std::string path = "/dev/shm/verif-c06-" + std::to_string(getpid());
+    static const std::string path = tmpdir::prefix() + "c06-" + std::to_string(getpid());
     for (int comp = 0; comp < 3; ++comp) {
         std::string filebytes = comp == 0 ? bytes : comp == 1 ? gz(bytes) : bz(bytes);
         if (comp != 0 && bytes.empty()) continue;
